@@ -391,6 +391,20 @@ func init() {
 			ex.draws[metaAt+1].T = ex.ts.Const(64, arg)
 			return ex.ts.Bool(crashed)
 		},
+		"WriteFault": func(ex *Exec, fn *ssa.Function, args []Value, caller *Frame) Value {
+			// the first write inside f may fail after part of its data is out;
+			// whether it does is a solver variable
+			fs := ex.fs()
+			x := ex.draw("write-fault", "bool", 0, 0, 1)
+			on := ex.branch(x)
+			fs.wfault, fs.wfaultDone = on, false
+			ex.call(args[1], nil, caller, token.NoPos)
+			fs.wfault = false
+			if on && !fs.wfaultDone {
+				ex.assume(ex.ts.False()) // no write happened that could fail
+			}
+			return ex.ts.Bool(on)
+		},
 		"FsOwner": func(ex *Exec, fn *ssa.Function, args []Value, caller *Frame) Value {
 			ex.fs().owner = ex.labelArg(args[1])
 			return nil
